@@ -282,7 +282,7 @@ def indexing(cell, k, x1, x2, dense, fails, feats):
     if len(bb) == 0:
         batch_alpha = [()]
     else:
-        per = [[0, -1, slice(None), slice(0, 1), torch.tensor([s - 1, 0])] for s in bb]
+        per = [[0, -1, slice(None), slice(0, 1), slice(1, None), torch.tensor([s - 1, 0])] for s in bb]
         batch_alpha = [tuple(b) for b in itertools.product(*per) if sum(torch.is_tensor(x) for x in b) <= 1]
         if tier == "quick":
             batch_alpha = batch_alpha[:: max(1, len(batch_alpha) // 6)]
